@@ -284,7 +284,7 @@ func VerifC25_http1Forward() {
 	}
 	vrt.Known("C25-invalid-name-written-verbatim", badName)
 	vrt.Known("C25-control-byte-in-value-written", badValue)
-	vrt.Known("C25-host-not-sanitised", !isValueC25([]byte(req.Host)) || len(trimOWSC25([]byte(req.Host))) != len(req.Host))
+	vrt.Known("C25-host-not-sanitised", !isValueC25([]byte(req.Host)))
 	vrt.Known("C25-method-not-validated", !isTokenC25([]byte(req.Method)))
 
 	var wire bytes.Buffer
@@ -301,7 +301,7 @@ func VerifC25_http1Forward() {
 	vrt.Assert(n == len(out), "C25/forward-exactly-one-request")
 	vrt.Assert(string(m.method) == req.Method && string(m.target) == "/p", "C25/forward-request-line")
 	hv, hc := findFieldC25(m.fields, []byte("Host"))
-	vrt.Assert(hc == 1 && string(hv) == req.Host, "C25/forward-host")
+	vrt.Assert(hc == 1 && bytes.Equal(hv, trimOWSC25([]byte(req.Host))), "C25/forward-host")
 	// every accepted field is forwarded once with its (sanitised) value, and nothing else is
 	total := 1
 	for k, vv := range req.Header {
